@@ -21,9 +21,13 @@ import (
 
 var pauseOnce sync.Once
 
+// NoHotLimit is a WriteHotKeyLimit no history reaches.
+const NoHotLimit = 1 << 30
+
 // Driver runs a history against one real DB.
 type Driver struct {
 	DB      *NoKV.DB
+	opt     *NoKV.Options
 	keys    [][]byte
 	cleanup func()
 	reader  *percolator.Reader
@@ -44,13 +48,21 @@ func Open(keys []string) *Driver {
 	opt.ValueLogHotBucketCount = 0
 	opt.ValueThreshold = 1 << 20 // keep every value inline in the LSM
 	opt.EnableWALWatchdog = false
-	opt.HotRingEnabled = false
+	// Hot-key write throttle: plain monotonic per-(cf,key) counters (no sliding window,
+	// no decay, no rotation: nothing depends on the wall clock); the limit starts out of
+	// reach and is lowered / raised by OpHotLimit steps.
+	opt.HotRingEnabled = true
+	opt.HotRingWindowSlots = 0
+	opt.HotRingWindowSlotDuration = 0
+	opt.HotRingRotationInterval = 0
+	opt.HotRingDecayInterval = 0
+	opt.WriteHotKeyLimit = NoHotLimit
 	opt.ValueLogHotRingOverride = false
 	opt.NumCompactors = 1
 	opt.BlockCacheSize = 64
 	opt.BloomCacheSize = 64
 	db := NoKV.Open(opt)
-	d := &Driver{DB: db, cleanup: cleanup, reader: percolator.NewReader(db)}
+	d := &Driver{DB: db, opt: opt, cleanup: cleanup, reader: percolator.NewReader(db)}
 	for _, k := range keys {
 		d.keys = append(d.keys, []byte(k))
 	}
@@ -189,6 +201,16 @@ func (d *Driver) Do(s Step) (Resp, error) {
 func (d *Driver) Maint(s Step) (string, error) {
 	l := d.DB.VerifLSM()
 	switch s.Op {
+	case OpHotLimit:
+		n := s.N
+		if n <= 0 {
+			n = NoHotLimit
+		}
+		d.opt.WriteHotKeyLimit = int32(n) // read by DB.maybeThrottleWrite on every write
+		if n == NoHotLimit {
+			return "hotlimit:off", nil
+		}
+		return "hotlimit:on", nil
 	case OpRotate:
 		l.Rotate()
 		return "rotate", nil
@@ -277,8 +299,9 @@ func (d *Driver) Layout() (string, map[int]int) {
 // dropped.  Lock CF -> locks, write CF -> write records, default CF -> data.
 type Dump struct {
 	Snap
-	MinC []string // "k0 ts=5 minc=7"
-	Data []string // "k0@5 len=3 hash"
+	Recs []MWriteK // every write record (incl. rollbacks), structured
+	MinC []string  // "k0 ts=5 minc=7"
+	Data []string  // "k0@5 len=3 hash"
 	Raw  []string
 }
 
@@ -323,6 +346,7 @@ func (d *Driver) Dump() (Dump, error) {
 			if err != nil {
 				return out, fmt.Errorf("dump: write record of key %d@%d: %v", k, ts, err)
 			}
+			out.Recs = append(out.Recs, MWriteK{K: k, W: MWrite{Commit: ts, Start: w.StartTs, Kind: int(w.Kind)}})
 			if int(w.Kind) == KRoll {
 				out.Rolls = append(out.Rolls, fmt.Sprintf("k%d rollback@%d", k, w.StartTs))
 				if ts != w.StartTs {
@@ -341,6 +365,12 @@ func (d *Driver) Dump() (Dump, error) {
 	sort.Strings(out.MinC)
 	sort.Strings(out.Data)
 	return out, nil
+}
+
+// MWriteK is a write record with its key.
+type MWriteK struct {
+	K int
+	W MWrite
 }
 
 func fnv32(b []byte) uint32 {
